@@ -218,3 +218,75 @@ example :
   decide
 
 end Tc
+
+namespace Tc
+
+/-- the tasks listed in a working-set vector -/
+def wsMembersL (l : List (Option Nat)) : List Nat := l.filterMap id
+
+theorem mem_wsMembersL (l : List (Option Nat)) (u : Nat) : u ∈ wsMembersL l ↔ some u ∈ l := by
+  simp [wsMembersL, List.mem_filterMap]
+
+theorem wsMembersL_stripTrailing (l : List (Option Nat)) : wsMembersL (stripTrailing l) = wsMembersL l := by
+  induction l with
+  | nil => rfl
+  | cons e es ih =>
+    simp only [stripTrailing]
+    split
+    · rename_i h1
+      -- the rest strips to nothing and this entry is empty: nothing is listed
+      have : wsMembersL es = [] := by rw [← ih, h1]; rfl
+      simp [wsMembersL, List.filterMap_cons] at this ⊢
+      exact this
+    · simp only [wsMembersL, List.filterMap_cons] at ih ⊢
+      rw [ih]
+
+theorem filterMap_keepWs (db : DB) (l : List (Option Nat)) :
+    l.filterMap (keepWs db) = (wsMembersL l).filter (memWs db) := by
+  induction l with
+  | nil => rfl
+  | cons e es ih =>
+    cases e with
+    | none => simp [wsMembersL, List.filterMap_cons, keepWs] at ih ⊢; exact ih
+    | some u =>
+      simp only [wsMembersL, List.filterMap_cons, keepWs, id] at ih ⊢
+      by_cases h : memWs db u = true
+      · simp [h, List.filter_cons, ih]
+      · simp [h, List.filter_cons, ih]
+
+/-- **no task is listed twice**: if the stored working set listed no task twice and the storage
+    enumerates every task once, the rebuilt working set — in either mode — lists no task twice -/
+theorem C15_no_duplicates (db : DB) (r : Bool) (old : List (Option Nat)) (all : List Nat)
+    (hold : (wsMembersL old.tail).Nodup) (hall : all.Nodup) :
+    (wsMembersL (rebuildSpec db r old all)).Nodup := by
+  have hscan : wsMembersL (if r then (old.tail.filterMap (keepWs db)).map some
+      else stripTrailing (old.tail.map (keepWs db))) = (wsMembersL old.tail).filter (memWs db) := by
+    cases r
+    · simp only [Bool.false_eq_true, if_false, wsMembersL_stripTrailing]
+      simp only [wsMembersL, List.filterMap_map]
+      have := filterMap_keepWs db old.tail
+      simp only [wsMembersL] at this
+      rw [← this]
+      congr
+    · simp only [if_true]
+      simp only [wsMembersL, List.filterMap_map]
+      have := filterMap_keepWs db old.tail
+      simp only [wsMembersL] at this
+      rw [← this]
+      simp
+  unfold rebuildSpec
+  simp only [wsMembersL, List.filterMap_cons, id, List.filterMap_append]
+  have h2 : List.filterMap id (List.map some (all.filter fun u => memWs db u && !old.tail.contains (some u)))
+      = all.filter fun u => memWs db u && !old.tail.contains (some u) := by
+    simp [List.filterMap_map]
+  simp only [wsMembersL] at hscan
+  rw [hscan, h2]
+  refine List.nodup_append.mpr ⟨hold.filter _, hall.filter _, ?_⟩
+  intro a ha b hb hab
+  subst hab
+  have h1 : some a ∈ old.tail := (mem_wsMembersL old.tail a).mp (List.mem_filter.mp ha).1
+  have h3 := (List.mem_filter.mp hb).2
+  simp only [Bool.and_eq_true, Bool.not_eq_true', List.contains_eq_mem, decide_eq_false_iff_not] at h3
+  exact h3.2 h1
+
+end Tc
